@@ -29,10 +29,10 @@ K_FREE_GENERAL = "wicks:free-general-index-with-delta-evaluation"
 def classify(ops, segs, coef, evd):
     """Narrow spec-level input classes of the known findings."""
     for (s, e) in segs:
-        grp = ops[s - 1:e]
-        names = [x for _, x in grp]
-        if any(n[0] in "pqrstuvw" for n in names):
+        if any(x[0] in "pqrstuvw" for _, x in ops[s - 1:e]):
             return K_NO_GENERAL
+    for (s, e) in segs:
+        names = [x for _, x in ops[s - 1:e]]
         if len(set(names)) < len(names):
             return K_NO_REPEAT
     if evd:
@@ -78,7 +78,7 @@ def run_case(chk, ops, segs, coef, origin):
     except Exception as exc:        # sympy refuses the construction itself
         chk.count("sympy_refused_input")
         return
-    if expr == 0 or has_operator_power(expr):
+    if expr == 0:
         chk.count("degenerate_input_skipped")
         return
     what0 = f"{expr}"
@@ -115,9 +115,10 @@ def random_string(r, length):
         sp = r.choice("oovvg")
         name = r.choice(pools[sp][:r.choice([2, 3, 4])])
         ops.append((kd, name))
-    # no adjacent identical operators (sympy turns them into a Pow)
+    # adjacent identical operators (sympy turns them into a Pow) only
+    # occasionally: the product vanishes
     for k in range(1, len(ops)):
-        if ops[k] == ops[k - 1]:
+        if ops[k] == ops[k - 1] and r.random() < 0.8:
             ops[k] = ("Fd" if ops[k][0] == "F" else "F", ops[k][1])
     names = [x for _, x in ops]
     segs = []
